@@ -5,9 +5,11 @@ pub struct Counters {
     pub shift_unresolved_below_cutoff: u64,
     pub shift_unresolved_refused: u64,
     pub parse_calls: u64,
+    pub order_check_calls: u64,
 }
 pub fn snapshot() -> Counters {
     Counters::default()
 }
 pub fn reset() {}
 pub fn set_parse_calls_cap(_cap: u64) {}
+pub fn set_order_check_calls_cap(_cap: u64) {}
